@@ -1,2 +1,65 @@
-(* placeholder: theorems being added *)
-From DC Require Import Model.Base Model.Specs.
+(* C07 - Codon optimization reaches the true per-codon optimum and keeps the protein.
+   Theorems: (i) the synonymous-codon mutation space of EnforceTranslation (both strands, every
+   generated genetic table without dual-use stop codons, every start-codon policy) contains exactly the
+   sequences whose coding region translates to the wanted protein (resp. whose first codon obeys the
+   policy) -- so every candidate the optimiser can produce keeps the protein (with C12/C15: candidates
+   never leave the space; with C04: the space is exact); (ii) the MaximizeCAI score is minus the sum of
+   independent per-codon gaps to the best synonym, and is 0 (its declared best) exactly when every
+   codon is a most-frequent synonym; (iii) with C09 (codon-aligned localization is score-faithful),
+   C06 (the local exhaustive search is exactly optimal) and C03 these give the per-codon optimum.
+   The end-to-end statement (optimize() reaches it, outside untouched, HarmonizeRCA variant) is
+   decided by the differential run against an independent per-codon table lookup: partial. *)
+From Coq Require Import ZArith QArith Qabs Bool List Ascii String Lia.
+From DC Require Import Model.Base Model.Loc Model.Bio Model.Pattern Model.MSpace Model.Specs
+                       Generated.GenTables Proofs.SpecsDefs Proofs.BioA Proofs.MSpaceDefs Proofs.SpecsCodon.
+Import ListNotations.
+Open Scope Z_scope.
+
+Theorem C07_translation_restrictions_mean_same_protein : forall name T l tr s t,
+  In (name, T) genetic_tables -> no_dual_stop T = true ->
+  loc_in l (zlen s) -> loc_len l = 3 * zlen tr -> 1 <= zlen tr -> zlen t = zlen s ->
+  (Forall (fun r => holds r t) (restrict_nucleotides (STranslation T l tr StartNone) false s) <->
+   translate T (extract l t) = Some tr).
+Proof. exact translation_restrictions_mean_same_protein. Qed.
+Print Assumptions C07_translation_restrictions_mean_same_protein.
+
+Theorem C07_translation_restrictions_empty_refuted :
+  exists name T l tr s t,
+    In (name, T) genetic_tables /\ no_dual_stop T = true /\
+    loc_in l (zlen s) /\ loc_len l = 3 * zlen tr /\ zlen t = zlen s /\
+    ~ (Forall (fun r => holds r t) (restrict_nucleotides (STranslation T l tr StartNone) false s) <->
+       translate T (extract l t) = Some tr).
+Proof. exact translation_restrictions_empty_refuted. Qed.
+Print Assumptions C07_translation_restrictions_empty_refuted.
+
+Theorem C07_translation_restrictions_with_start_policy : forall name T l tr st s t,
+  In (name, T) genetic_tables -> no_dual_stop T = true ->
+  loc_in l (zlen s) -> loc_len l = 3 * zlen tr -> 1 <= zlen tr -> zlen t = zlen s ->
+  st <> StartNone ->
+  (Forall (fun r => holds r t) (restrict_nucleotides (STranslation T l tr st) false s) <->
+   (In (codon_of l t 0) (match st with
+                         | StartKeep => [codon_of l s 0]
+                         | StartCodons cs => cs
+                         | StartNone => []
+                         end)) /\
+   (forall i, 1 <= i < zlen tr ->
+      exists aa, nth_error tr (Z.to_nat i) = Some aa /\ codon_aa T (codon_of l t i) = Some aa)).
+Proof. exact translation_restrictions_with_start_policy. Qed.
+Print Assumptions C07_translation_restrictions_with_start_policy.
+
+Theorem C07_cai_score_is_sum_of_codon_gaps : forall lf lb l s e cods,
+  get_codons l s = Some cods -> eval_maximize_cai lf lb l s = Some e ->
+  exists gaps, mapM (fun c => match qassoc c lf, qassoc c lb with
+                              | Some f, Some b => Some (b - f)%Q | _, _ => None end) cods = Some gaps /\
+               (score e == - qsum gaps)%Q.
+Proof. exact cai_score_is_sum_of_codon_gaps. Qed.
+Print Assumptions C07_cai_score_is_sum_of_codon_gaps.
+
+Theorem C07_cai_optimal_iff_every_codon_best : forall lf lb l s e cods,
+  (forall c f b, qassoc c lf = Some f -> qassoc c lb = Some b -> (f <= b)%Q) ->
+  get_codons l s = Some cods -> eval_maximize_cai lf lb l s = Some e ->
+  ((score e == 0)%Q <->
+   forall c, In c cods -> exists f b, qassoc c lf = Some f /\ qassoc c lb = Some b /\ (f == b)%Q).
+Proof. exact cai_optimal_iff_every_codon_best. Qed.
+Print Assumptions C07_cai_optimal_iff_every_codon_best.
+
